@@ -94,6 +94,10 @@ func queryCandidates(q string) []string {
 func Shrink(p Property, c Case, rule string) (Case, string, bool) {
 	budget := 400
 	detail := ""
+	switch c.Prop {
+	case "C13", "C14", "C15", "C17", "C12", "C20":
+		return c, "", false // fault addresses / histories are not shrunk
+	}
 	try := func(cand Case) bool {
 		if budget <= 0 {
 			return false
